@@ -172,7 +172,13 @@ pub fn check_case(rep: &mut Report, case: &TCase) -> Option<(String, String)> {
         (src.transpose(&via, cfg.clone()), src_pieces)
     }));
     let sside = case.source_side();
-    let want_ok = match sside { Some(s) if s < case.sides.len() => !case.source.is_empty() && case.source.iter().all(|(b, e)| covered(case, s, *b, *e)), _ => false };
+    let covers_all = |s: usize| !case.source.is_empty() && case.source.iter().all(|(b, e)| covered(case, s, *b, *e));
+    let want_ok = match (case.by_index, sside) {
+        (Some(i), _) => i < case.sides.len() && covers_all(i),
+        // (no side forced: the side the source lies in — with several sides in the source's resource, one of them must cover all of it)
+        (None, Some(_)) => (0..case.sides.len()).any(|s| covers_all(s)),
+        _ => false,
+    };
     rep.count(&format!("source:{}", if want_ok { if case.source.len() > 1 { "covered/multi" } else { "covered/one" } } else { "not-covered" }));
     let (builders, src_pieces) = match res {
         Err(m) => { rep.fail("panic", "C16/transpose-panics", ctx, if want_ok { "ok" } else { "err" }, &m); return Some((tp_line(case, &case.source.iter().map(|(b, e)| (case.src_res, *b, *e)).collect::<Vec<_>>()), format!("panic"))); }
@@ -325,9 +331,23 @@ pub fn gen_case(seed: u64, i: usize) -> TCase {
         texts.push(text);
         sides.push(pos.iter().map(|(b, e)| (s, *b, *e)).collect::<Vec<_>>());
     }
-    let src_res = if rng.chance(85) { 0 } else { rng.below(nsides) };
+    // every eighth case: all sides lie in ONE resource, one after the other (adjacent half of the time): a source can
+    // then touch two sides at once, which no side covers
+    if rng.chance(12) {
+        let mut text = String::new();
+        let mut shift = 0usize;
+        for s in 0..nsides {
+            if s > 0 && rng.chance(50) { let f = 1 + rng.below(2); text.push_str(&rand_str(&mut rng, f, &fill_alpha)); shift += f; }
+            for f in sides[s].iter_mut() { *f = (0, f.1 + shift, f.2 + shift); }
+            text.push_str(&texts[s]);
+            shift += texts[s].chars().count();
+        }
+        texts = vec![text];
+    }
+    let one_resource = texts.len() == 1 && nsides > 1;
+    let src_res = if one_resource { 0 } else if rng.chance(85) { 0 } else { rng.below(nsides) };
     let tl = texts[src_res].chars().count();
-    let frs: Vec<(usize, usize, usize)> = sides[src_res].clone();
+    let frs: Vec<(usize, usize, usize)> = if one_resource { sides[rng.below(nsides)].clone() } else { sides[src_res].clone() };
     let nsel = match rng.below(10) { 0..=5 => 1, 6..=8 => 2, _ => 3 };
     let mut source = vec![];
     for _ in 0..nsel {
@@ -382,7 +402,10 @@ pub fn run(opts: &Opts) -> Report {
         let cov = match sside { Some(s) if s < case.sides.len() => case.source.iter().all(|(b, e)| covered(&case, s, *b, *e)), _ => false };
         rep.case(if cov { Some(&line) } else { None });
         let a = check_case(&mut rep, &case);
-        if let Some((tpl, answer)) = &a {
+        // (the Lean model is of sides in pairwise different resources; with several sides in one resource the oracles decide)
+        let one_resource = case.texts.len() == 1 && case.sides.len() > 1;
+        if one_resource { rep.count("sides:all-in-one-resource (oracles only)"); }
+        if let (Some((tpl, answer)), false) = (&a, one_resource) {
             rep.model_case_ctx(vec![line.clone()], vec![tpl.clone()], vec![answer.clone()], "transpose");
         }
         if i == 0 { rep.sample(json!({"case": line, "implementation": a})); }
